@@ -28,7 +28,7 @@ ARG_POOL = ['x', 'y', 'z', 'a', 'b', 'n', 'key', 'name', 'other', 'p', 'q', 'val
             's', 'tol', 'i', 'j']
 TPARAM_POOL = ['T', 'U', 'K', 'N', 'POSE', 'CALIBRATION', 'T1', 'V', 'P', 'CAM', 'Tp', 'D',
                'POINT', 'RESULT']
-ENUM_POOL = ['Kind', 'Color', 'Mode', 'Verbosity', 'E', 'State']
+ENUM_POOL = ['Kind', 'Color', 'Mode', 'Verbosity', 'E', 'State', 'classification', 'structural']
 ENUMERATOR_POOL = ['Red', 'Green', 'Blue', 'A', 'B', 'C', 'SILENT', 'ERROR', 'kOne', 'kTwo',
                    'Dog', 'Cat', 'x0', 'X']
 FOREIGN_TYPES = [((), 'string'), ((), 'Vector'), ((), 'Matrix'), (('gtsam',), 'Pose3'),
